@@ -45,6 +45,29 @@ static void misuse_double_free(void) {
   vf_logf("{\"e\":\"misuse\",\"kind\":\"double_free\",\"id\":%d,\"samepage_live\":%s,\"cls\":\"m%d\",\"k\":0,", id, samepage ? "true" : "false", mode); log_errs(); vf_logf("}"); vf_log_line_end();
   nerrs = 0;
 }
+/* the block was first freed by ANOTHER thread and sits on its page's thread-free list (it was not the page's first remote free: that one
+   goes through the heap's delayed list); the page is otherwise full; then the owner frees it again */
+static void misuse_double_free_remote(void) {
+  size_t n = 7000 + (size_t)vf_randn(1000);                      /* seven or eight blocks per 64 KiB page */
+  int got[32]; int ng = 0;
+  for (int i = 0; i < 32 && ng < 32; i++) { int a = op_alloc_ex(A_malloc, n, 0, 0, 0, 0); if (a >= 0) got[ng++] = a; }
+  int pick[4]; int np = 0; mi_page_t* full = NULL;
+  for (int i = 0; i < ng && full == NULL; i++) { mi_page_t* pg = _mi_ptr_page(slots[got[i]].p); if (pg->used == pg->capacity && pg->capacity == pg->reserved && pg->capacity >= 3) full = pg; }
+  if (full != NULL) for (int i = 0; i < ng && np < 4; i++) if (_mi_ptr_page(slots[got[i]].p) == full) pick[np++] = got[i];
+  if (full == NULL || np < 3 || mi_page_thread_free(full) != NULL) { for (int i = 0; i < ng; i++) op_free_slot(got[i], FR_free); return; }
+  void* p = slots[pick[1]].p; int id = slots[pick[1]].id;
+  vf_free_in_thread = 1; op_free_slot(pick[0], FR_free);          /* the page's first remote free */
+  vf_free_in_thread = 1; op_free_slot(pick[1], FR_free);          /* the block in question: onto the page's thread-free list */
+  int onlist = 0; for (mi_block_t* b = mi_page_thread_free(full); b != NULL && onlist < 8; b = mi_block_next(full, b)) if ((void*)b == p) { onlist = 1; break; } else onlist += 0;
+  int samepage = (slots[pick[2]].p != NULL && _mi_ptr_page(slots[pick[2]].p) == full);
+  if (onlist) {
+    nerrs = 0;
+    vf_in_call = 1; mi_free(p); vf_in_call = 0;          /* the second free, by the owner */
+    vf_logf("{\"e\":\"misuse\",\"kind\":\"double_free\",\"id\":%d,\"samepage_live\":%s,\"cls\":\"m5.remote\",\"k\":0,", id, samepage ? "true" : "false"); log_errs(); vf_logf("}"); vf_log_line_end();
+    nerrs = 0;
+  }
+  for (int i = 0; i < ng; i++) if (slots[got[i]].p) op_free_slot(got[i], FR_free);
+}
 static void misuse_overflow(void) {
   /* sizes: anything up to 3000, with the sizes below one word and around the word multiples over-represented; the block may have been
      shrunk in place before (its padding was adjusted), and it may be freed by another thread */
@@ -153,7 +176,8 @@ int main(int argc, char** argv) {
     else if (r < 78) op_realloc();
     else if (r < 82) op_write();
     else if (r < 84) { op_collect(); if (!list_truncated) op_visit(0, 0); }
-    else if (r < 90) misuse_double_free();
+    else if (r < 89) misuse_double_free();
+    else if (r < 90) misuse_double_free_remote();
     else if (r < 96) misuse_overflow();
     else if (forged_ok && nops > ops / 2) misuse_forged_link();
     /* no error must be left over from legal operations */
